@@ -563,6 +563,8 @@ func (t *stdioClientTransport) stderrLoop() {
 	}
 
 	scanner := bufio.NewScanner(t.stderr)
+	// Keep draining stderr even if the child prints a very long line (default limit: 64 KiB).
+	scanner.Buffer(make([]byte, 0, 64*1024), maxStreamLineSize)
 	for scanner.Scan() && !t.closed.Load() {
 		line := scanner.Text()
 		if line != "" {
